@@ -266,7 +266,10 @@ fn run_shape(args: &Args, report: &mut Report, rng: &mut Rng, case: u64, forced:
             d["census"] = census_json(census);
             let blk = ib.load(Ordering::SeqCst);
             if *end == JobEnd::Deadlocked {
-                if blk != u64::MAX && is_f8(census, blk) {
+                // the listed finding is the pinned input (iterate with a shuffle in its body, 20 000
+                // elements, single-element batches, local(2)); the same shape on any other input
+                // is a violation
+                if pinned && blk != u64::MAX && is_f8(census, blk) {
                     d["finding"] = json!("F8");
                     d["error"] = json!("quiescence certificate: cyclic wait through the feedback edge of iterate (known finding F8)");
                     r.case(Verdict::Known, None, || d);
